@@ -1,7 +1,7 @@
 (** C11 (shared by C08–C10) — Layer 1: values and filter expressions.
 
     Transcription of [ExpressionPredicate::eval_expr] and its helpers
-    (crates/grafeo-core/src/execution/operators/filter.rs) AS WRITTEN at HEAD (after f0940d4):
+    (crates/grafeo-core/src/execution/operators/filter.rs) AS WRITTEN at HEAD (after 8edf585):
     - a sub-expression that yields no value ([None]) makes every binary operator yield [None]
       ([?] on both operands, left first): the connectives are NOT Kleene ([NULL AND false] is
       unknown, [NULL OR true] is unknown);
@@ -166,7 +166,7 @@ Definition checked_div (a b : Z) : option value :=
 Definition checked_rem (a b : Z) : option value :=
   if b =? 0 then None else if (a =? - two63) && (b =? -1) then None else Some (VInt (Z.rem a b)).
 
-(** the integer arithmetic of [eval_arithmetic] BEFORE the repair f0940d4 ([a + b], [a / b] ...
+(** the integer arithmetic of [eval_arithmetic] BEFORE the repair 8edf585 ([a + b], [a / b] ...
     on i64): a panic where the checked operations now yield no value *)
 Definition arith_pre (m : mode) (op : binop) (a b : Z) : res (option value) :=
   match op with
